@@ -179,6 +179,60 @@ theorem rendered_node_shape (n : Compile.NodeM) :
       · intro h
         simp [Compile.renderNode, hn] at h
 
+/-! #### example sheets (used by the non-vacuity examples and the negative witness below) -/
+
+def blankCond : Compile.Cond := { value := [], var := [], type := [], name := [] }
+
+def edgeFrom (f : String) (v : String := "") : Compile.Edge :=
+  { from_ := f.toList, cond := { blankCond with value := v.toList } }
+
+def mkRow (id type : String) (edges : List Compile.Edge) (action : Option String := none)
+    (dests : List String := []) (nodeUuid : String := "") : Compile.Row :=
+  { rowId := id.toList, type := type.toList, edges := edges, action := action.map String.toList,
+    actionOk := true, ownAction := none, nodeUuid := nodeUuid.toList, nodeName := [], saveName := [],
+    noResponse := [], expression := [], flowName := [], dests := dests.map String.toList,
+    resultKey := none, nodeOk := true }
+
+/-- a message, a router (`wait_for_response` with two conditional edges), a block entered on one
+answer, a `go_to` from the block back to the first row, an inserted block (its own row ids; a
+random split inside) and a sub-flow node behind it -/
+def exEvents : List Compile.Event :=
+  [ .row (mkRow "1" "send_message" [edgeFrom ""] (some "hello")),
+    .row (mkRow "2" "wait_for_response" [edgeFrom ""]),
+    .openGroup [edgeFrom "2" "yes"] false,
+    .row (mkRow "3" "send_message" [edgeFrom ""] (some "in block")),
+    .closeGroup "b".toList,
+    .row (mkRow "4" "go_to" [edgeFrom "b"] none ["1"]),
+    .row (mkRow "5" "send_message" [edgeFrom "2" "no"] (some "bye")),
+    .insert (mkRow "6" "insert_as_block" [edgeFrom "5"])
+      [ .row (mkRow "1" "send_message" [edgeFrom ""] (some "inner")),
+        .row (mkRow "2" "split_random" [edgeFrom ""]),
+        .row (mkRow "3" "send_message" [edgeFrom "2" "a"] (some "A")) ],
+    .row (mkRow "7" "start_new_flow" [edgeFrom "6"]) ]
+
+/-- finding F-C01-a: an action row and a following router row give the same `_nodeId` -/
+def badEvents : List Compile.Event :=
+  [ .row (mkRow "1" "send_message" [edgeFrom ""] (some "hello") [] "X"),
+    .row (mkRow "2" "wait_for_response" [edgeFrom "1"] none [] "X") ]
+
+def exTests : List Str := ["has_any_word".toList, "has_only_text".toList]
+
+/-- `some true` / `some false`: compiles, and the output is / is not closed; `none`: error -/
+def outcome (noArgs testTypes : List Str) (evs : List Compile.Event) : Option Bool :=
+  match Compile.compile noArgs testTypes evs with
+  | .ok out => some (decide (Closed (Compile.renderOut out)))
+  | .error _ => none
+
+theorem outcome_some {noArgs testTypes : List Str} {evs : List Compile.Event} {b : Bool}
+    (h : outcome noArgs testTypes evs = some b) :
+    ∃ out, Compile.compile noArgs testTypes evs = .ok out ∧ (Closed (Compile.renderOut out) ↔ b = true) := by
+  unfold outcome at h
+  split at h
+  · rename_i out ho
+    injection h with h
+    exact ⟨out, ho, by rw [← h]; simp⟩
+  · cases h
+
 /-- **Cases resolve, for ALL event sequences**: whatever rows, groups and inserted blocks the
 parser is fed, if the compiler model succeeds then every case of every router of the emitted flow
 names a category of that same router (invariant `CaseCatsOk` of the machine, by induction over
@@ -195,6 +249,13 @@ theorem compile_cases_resolve (noArgs testTypes : List Str) (evs : List Compile.
   obtain ⟨i, hi⟩ := Compile.out_nodes_arena hm
   have a := Compile.final_ainv False (fun hf => hf.elim) hr
   exact Compile.rendered_cases_ok (a.ok i m hi).cases
+
+/-- non-vacuity: the example sheet (router, block, `go_to`, inserted block) compiles, and its cases name categories -/
+example : ∃ out, Compile.compile [] exTests exEvents = .ok out ∧
+    ∀ n ∈ (Compile.renderOut out).nodes, ∀ r, n.router = some r →
+      ∀ k ∈ r.cases, k.catUuid ∈ r.cats.map (·.uuid) := by
+  obtain ⟨out, ho, _⟩ := outcome_some (show outcome [] exTests exEvents = some true by decide +kernel)
+  exact ⟨out, ho, compile_cases_resolve _ _ _ _ ho⟩
 
 /-- **Destinations resolve, for ALL event sequences**: if the compiler model succeeds, every
 destination named by an exit of the emitted flow is the identifier of a node OF THE EMITTED FLOW.
@@ -219,6 +280,13 @@ theorem compile_dests_resolve (noArgs testTypes : List Str) (evs : List Compile.
   refine ⟨m', ?_, by simp [Compile.renderNode, hu]⟩
   rw [ho, List.mem_filterMap]
   exact ⟨j, hje, hj⟩
+
+/-- non-vacuity: the example sheet compiles; all its destinations are nodes of the output -/
+example : ∃ out, Compile.compile [] exTests exEvents = .ok out ∧
+    ∀ n ∈ (Compile.renderOut out).nodes, ∀ e ∈ n.exits, ∀ d, e.dest = some d →
+      d ∈ (Compile.renderOut out).nodes.map (·.uuid) := by
+  obtain ⟨out, ho, _⟩ := outcome_some (show outcome [] exTests exEvents = some true by decide +kernel)
+  exact ⟨out, ho, compile_dests_resolve _ _ _ _ ho⟩
 
 /-- "No identifiers are given in the sheet": every row, also inside inserted blocks, has an
 empty `_nodeId` (the hypothesis of `compile_closed`; needed, see `needs_no_given_ids`). -/
@@ -286,66 +354,38 @@ theorem compile_closed (noArgs testTypes : List Str) (evs : List Compile.Event) 
       · intro e he; rw [hex]; exact List.mem_map_of_mem he
       · exact compile_cases_resolve noArgs testTypes evs out h _ hn r hr
 
+/-- Under the same hypothesis every identifier of the emitted document was invented by the
+model's `generate_new_uuid` (it is `~k` for a value `k` the counter went through): together with
+`compile_closed` — each such identifier is handed out for one object only. -/
+theorem compile_ids_invented (noArgs testTypes : List Str) (evs : List Compile.Event) (out : Compile.Out)
+    (hids : NoGivenIds evs) (h : Compile.compile noArgs testTypes evs = .ok out) :
+    ∀ x ∈ (Compile.renderOut out).ids, ∃ k, x = '~' :: Compile.natStr k := by
+  obtain ⟨s, hr, hl, ho⟩ := Compile.compile_ok h
+  have hI := (Compile.final_ainv True (fun _ => hids) hr).ids trivial
+  intro x hx
+  have e : (Compile.renderOut out).ids = out.nodes.flatMap Compile.NodeM.ids := by
+    simp only [Compile.renderOut, Flow.Flow.ids, List.flatMap_map, Compile.renderNode_ids]
+  rw [e, List.mem_flatMap] at hx
+  obtain ⟨m, hm, hxm⟩ := hx
+  rw [ho] at hm
+  obtain ⟨i, hi⟩ := Compile.out_nodes_arena hm
+  obtain ⟨k, _, hk⟩ := hI.below i m hi x hxm
+  exact ⟨k, hk⟩
+
 /-! ### non-vacuity of `compile_closed` and the negative witness for its hypothesis -/
 
-def blankCond : Compile.Cond := { value := [], var := [], type := [], name := [] }
-
-def edgeFrom (f : String) (v : String := "") : Compile.Edge :=
-  { from_ := f.toList, cond := { blankCond with value := v.toList } }
-
-def mkRow (id type : String) (edges : List Compile.Edge) (action : Option String := none)
-    (dests : List String := []) (nodeUuid : String := "") : Compile.Row :=
-  { rowId := id.toList, type := type.toList, edges := edges, action := action.map String.toList,
-    actionOk := true, ownAction := none, nodeUuid := nodeUuid.toList, nodeName := [], saveName := [],
-    noResponse := [], expression := [], flowName := [], dests := dests.map String.toList,
-    resultKey := none, nodeOk := true }
-
-/-- a message, a router (`wait_for_response` with two conditional edges), a block entered on one
-answer, and a `go_to` from the block back to the first row -/
-def exEvents : List Compile.Event :=
-  [ .row (mkRow "1" "send_message" [edgeFrom ""] (some "hello")),
-    .row (mkRow "2" "wait_for_response" [edgeFrom ""]),
-    .openGroup [edgeFrom "2" "yes"] false,
-    .row (mkRow "3" "send_message" [edgeFrom ""] (some "in block")),
-    .closeGroup "b".toList,
-    .row (mkRow "4" "go_to" [edgeFrom "b"] none ["1"]),
-    .row (mkRow "5" "send_message" [edgeFrom "2" "no"] (some "bye")) ]
-
-/-- finding F-C01-a: an action row and a following router row give the same `_nodeId` -/
-def badEvents : List Compile.Event :=
-  [ .row (mkRow "1" "send_message" [edgeFrom ""] (some "hello") [] "X"),
-    .row (mkRow "2" "wait_for_response" [edgeFrom "1"] none [] "X") ]
-
-def exTests : List Str := ["has_any_word".toList]
-
-/-- `some true` / `some false`: compiles, and the output is / is not closed; `none`: error -/
-def outcome (noArgs testTypes : List Str) (evs : List Compile.Event) : Option Bool :=
-  match Compile.compile noArgs testTypes evs with
-  | .ok out => some (decide (Closed (Compile.renderOut out)))
-  | .error _ => none
-
-theorem outcome_some {noArgs testTypes : List Str} {evs : List Compile.Event} {b : Bool}
-    (h : outcome noArgs testTypes evs = some b) :
-    ∃ out, Compile.compile noArgs testTypes evs = .ok out ∧ (Closed (Compile.renderOut out) ↔ b = true) := by
-  unfold outcome at h
-  split at h
-  · rename_i out ho
-    injection h with h
-    exact ⟨out, ho, by rw [← h]; simp⟩
-  · cases h
-
-/-- non-vacuity of `compile_closed`: a sheet with a router, a block and a `go_to` satisfies the
-hypotheses (no given identifiers, compiles: four nodes, one of them a router) — and, as the
-theorem says, its output is closed -/
+/-- non-vacuity of `compile_closed`: a sheet with a router, a block, a `go_to` and an inserted
+block satisfies the hypotheses (no given identifiers, compiles: eight nodes, three of them
+routers) — and, as the theorem says, its output is closed -/
 example : NoGivenIds exEvents ∧
     ∃ out, Compile.compile [] exTests exEvents = .ok out ∧ Closed (Compile.renderOut out) ∧
-      out.nodes.length = 4 ∧ (out.nodes.filter (·.router.isSome)).length = 1 := by
+      out.nodes.length = 8 ∧ (out.nodes.filter (·.router.isSome)).length = 3 := by
   refine ⟨by decide +kernel, ?_⟩
   have h : outcome [] exTests exEvents = some true := by decide +kernel
   obtain ⟨out, ho, hc⟩ := outcome_some h
   refine ⟨out, ho, hc.mpr rfl, ?_⟩
   have h2 : (match Compile.compile [] exTests exEvents with
-      | .ok out => decide (out.nodes.length = 4 ∧ (out.nodes.filter (·.router.isSome)).length = 1)
+      | .ok out => decide (out.nodes.length = 8 ∧ (out.nodes.filter (·.router.isSome)).length = 3)
       | .error _ => false) = true := by decide +kernel
   rw [ho] at h2
   simpa using h2
